@@ -75,9 +75,20 @@ def run_one(s):
             continue
         t = r[1].as_tensor.detach().clone().reshape(-1)
         ev.append({"a": "sample", "loss": op["loss"], "ret": [rid(v) for v in t], "x": [fx(v) for v in t]})
+    # calls WITHOUT a loss draw a fresh sample for the parameters of THAT call: two rows, none, three rows on one object
+    fresh = []
+    for cls, kw in ((tp.samplers.AdaptiveThresholdRejectionSampler, {"resample_ratio": 0.5}), (tp.samplers.AdaptiveRandomRejectionSampler, {})):
+        sm = cls(dom, n_points=2, **kw)
+        counts = []
+        for kk in (2, 0, 3):
+            pk = tp.spaces.Points(torch.arange(kk, dtype=torch.float32).reshape(kk, 1), tp.spaces.R1("k")) if kk else tp.spaces.Points.empty()
+            r = watched(lambda: sm.sample_points(params=pk))
+            ok_cols = r[0] == "ok" and (("k" in r[1].space) == (kk > 0))
+            counts.append(len(r[1]) if ok_cols else -1)
+        fresh.append(counts)
     s = dict(s)
     s["lo"], s["hi"] = LO, HI
-    return {"events": ev, "scenario": s}
+    return {"events": ev, "scenario": s, "fresh_counts": fresh}
 
 
 if __name__ == "__main__":
